@@ -540,6 +540,15 @@ class Corr(Fn):
         n = rng.randint(3, 7)
         if self.spearman:
             x = rng.sample(range(-20, 40), n); y = rng.sample(range(-20, 40), n)   # tie-free by construction
+            if rng.random() < 0.5:      # tied values: rankdata gives mid-ranks (Model ranks = #smaller + (#equal + 1)/2)
+                x0, y0 = list(x), list(y)
+                for _try in range(50):
+                    x = [rng.choice(x0[:max(2, n // 2)]) for _ in range(n)] if rng.random() < 0.7 else x0
+                    y = [rng.choice(y0[:max(2, n // 2)]) for _ in range(n)] if rng.random() < 0.7 else y0
+                    if len(set(x)) > 1 and len(set(y)) > 1:
+                        break
+                else:
+                    x, y = x0, y0
             dv = rng.choice([1, 2]); x = [float(v) / dv for v in x]; y = [float(v) for v in y]
         else:
             while True:
@@ -661,7 +670,8 @@ class Bivariate(Fn):
 
     def gen(self, rng):
         n = rng.randint(3, 8)
-        g1 = [rng.randint(0, 2) for _ in range(n)]
+        blocks = rng.choice([[0, 1, 2], [0, 1, 2], [3, 4, 5], [5, 7, 9], [2, 3, 4]])      # block labels need not be treatment labels
+        g1 = [rng.choice(blocks) for _ in range(n)]
         g2 = [rng.randint(0, 2) for _ in range(n)]
         if len(set(g2)) < 2:
             g2[0] = 0; g2[1] = 1
@@ -1035,8 +1045,20 @@ def run_recorded(ctx, names, per_fn, site_prefix="", presets=None):
                 if name in LIST_OK and ctx.rng.random() < 0.08:
                     p["container"] = "list"; ctx.count("python-sequence-inputs")
             g, gkind, gseed = mk_generator(ctx.rng)
-            r, seen = fn.call(p, g)
+            # scalar options as they come out of NumPy computations / configuration files: np.int64 repetitions, np.bool_ / 0-1 flags
+            pc = p
+            if ctx.rng.random() < 0.2:
+                pc = dict(p)
+                pc["reps"] = ctx.rng.choice([np.int64, np.int32, np.uint16])(p["reps"]) if p["reps"] < 60000 else p["reps"]
+                if "plus1" in p:
+                    pc["plus1"] = ctx.rng.choice([np.bool_(p["plus1"]), int(p["plus1"]), p["plus1"]])
+                if "keep" in p:
+                    pc["keep"] = ctx.rng.choice([np.bool_(p["keep"]), int(p["keep"]), p["keep"]])
+                ctx.count("scalar-options-as-numpy-or-int")
+            r, seen = fn.call(pc, g)
             det = {"call": name, "params": p, "generator": gkind, "seed": gseed}
+            if pc is not p:
+                det["option_types"] = {k: type(pc[k]).__name__ for k in ("reps", "plus1", "keep") if k in pc}
             ctx.case((name, repr(sorted(p.items(), key=lambda kv: kv[0]))), True, det)
             ctx.count(name); ctx.count("gen-" + gkind)
             if "stat" in p:
